@@ -1227,7 +1227,7 @@ func TestC01(t *testing.T) {
 	run.Assume("the scripted backend.Client, the no-op write-back queue and the single-host hash ring are fakes at the outer boundary; CAStore, Refresher, blob server, metainfo generator and origin torrent archive are the real code")
 	run.Assume("hash verification stays enabled (SkipHashVerification=false), as the statement requires")
 
-	n := run.N(320, 4000)
+	n := run.N(320, 2400)
 	readersPerWorld := run.N(2, 3)
 	workersPerWorld := 2
 	perWorld := run.N(40, 250) // cases per world generation
